@@ -29,7 +29,16 @@ func (*Transport) Transport(ctx context.Context, request []byte) (response []byt
 		err      error
 	}, 1)
 	go func() {
-		response, err := Agent.Handler(ctx, url.Host, request)
+		var response []byte
+		var err error
+		func() {
+			defer func() {
+				if e := recover(); e != nil {
+					err = core.NewPanicError(e)
+				}
+			}()
+			response, err = Agent.Handler(ctx, url.Host, request)
+		}()
 		ch <- struct {
 			response []byte
 			err      error
